@@ -443,3 +443,14 @@ func LoadKnown(verifDir, property string) (map[string]string, []Finding, error) 
 	}
 	return known, mine, nil
 }
+
+// Families explores every member k = 1..maxK of every parametric family
+// (spaces.Families), completely.
+func (c *Ctx) Families(maxK int, f func(x *X, in []byte)) {
+	fams := spaces.Families()
+	c.Explore("families", fmt.Sprintf("parametric families (DESIGN.md 4.4): %d families x k=1..%d, each member once", len(fams), maxK), -1, maxK, func(x *X) {
+		fi := x.ChooseFree(len(fams))
+		k := x.ChooseFree(maxK) + 1
+		f(x, fams[fi].Gen(k))
+	})
+}
